@@ -39,7 +39,20 @@ class C03(Prop):
             "with name variants (percent-encoded, %2F, trailing slash, query that looks like a path, nested, dot segments, "
             "case), plus publisher flows with a configuration reload (changing / not changing the path) between "
             "authorization and attachment and RTSP SETUP URLs naming another path than ANNOUNCE. Observed: whether the "
-            "path manager's listing shows the client's session as source / reader, and of which path")
+            "path manager's listing shows the client's session as source / reader, and of which path. "
+            "NETWORK (on top, max(57, attempts/2) more attempts; a second Core runs with hls / webrtc / rtsp / rtmp "
+            "TrustedProxies = 127.0.0.3, 127.0.0.4 next to the default one without trusted proxies; users admitted from "
+            "one network only: the proxy's 127.0.0.3, 127.0.0.2, 127.0.0.1, 203.0.113.0/24, 2001:db8::/32): every cell of "
+            "front (HLS, WHEP, WHIP with and without the OPTIONS request, RTSP / RTMP publish and read) x scenario is "
+            "visited on every run - forwarding headers: honest proxy (X-Forwarded-For), proxy behind a forging client, "
+            "chain of two proxies, chain + forged list, X-Real-IP only, both headers, the proxy asking for itself, forged "
+            "X-Forwarded-For / X-Real-IP / list from a peer that is not a trusted proxy (both worlds), direct; PROXY "
+            "protocol v1 on RTSP / RTMP: from the trusted proxy (IPv4 / IPv6 source), from an untrusted peer, to a server "
+            "without PROXY listener, none - first with credentials admitted from an address involved OTHER than the "
+            "originator's (the proxy's, a forged one), then with credentials admitted from the originator's. The driver "
+            "plays the proxies itself (connects from their loopback address, writes what they would write), so the "
+            "originator of every request is known by construction; the manager is asked about every address involved; "
+            "the session is found in the listings by a unique query marker")
     trusted_base = ["Coq 8.16.1 kernel + VM",
                     "translator tools/gen/authflows (syntactic: go/ast without types; its pinned tables - four exempt "
                     "internal sites, one name equivalence resting on gortsplib - are repeated in Props/C03.v)",
@@ -47,6 +60,12 @@ class C03(Prop):
                     "protocol, the name / credentials / source address a request designates is the driver's: decoded URL "
                     "path for RTSP/RTMP/WebRTC, dot-segment-normalised directory for HLS, verbatim resource for SRT)",
                     "client libraries gortsplib (base/conn/auth), gortmplib, gosrt, pion, internal/protocols/whip",
+                    "network attempts: the driver's ground truth of who a request comes from (it plays honest proxies "
+                    "and liars itself); oracle net.ParseIP for every address text; C43's model of gin's ClientIP "
+                    "(Model/C43_Hls.v client_ip, compared end to end here and in C43); go-proxyproto's listener is "
+                    "modelled by three lines (pp_remote: USE for trusted peers, IGNORE otherwise, only when the list is "
+                    "not empty); the translator's reading of which expression supplies AccessRequest.IP (syntactic; "
+                    "httpp.RemoteAddr's body is pinned)",
                     "oracle: auth.Manager.Authenticate, asked directly by the driver for every (action, name, "
                     "credentials, ip) used (the manager itself is C01's subject)",
                     "oracle: regexp FindStringSubmatch per (regexp key, name)",
@@ -61,6 +80,10 @@ class C03(Prop):
                    "what each server puts into Name / Credentials / IP (URL parsing, header parsing) is not modelled; it is "
                    "sampled end to end (RTSP, RTMP, HLS, WebRTC, SRT on plain TCP/UDP; not RTSPS/RTMPS, MoQ, RTSP over "
                    "UDP/HTTP tunnel, JWT / HTTP authentication)",
+                   "requester identity: `attributable` (Model/C03_Origin.v) is the specification of whose request it is - "
+                   "the peer when it is outside <proto>TrustedProxies, the far end of an honest chain of trusted proxies, the "
+                   "source of a trusted proxy's X-Real-Ip / PROXY header; trusted proxies are assumed honest (they append "
+                   "their peer's address), which is what configuring them as trusted means",
                    "end to end, `admitted` is read from the API listings (session found by remote address + creation time, "
                    "or by the WHIP/WHEP ID header) and the path manager's path list; a session that attaches and detaches "
                    "within the 40 ms polling period is missed"]
@@ -77,7 +100,15 @@ class C03(Prop):
              "and by end-to-end attempts of real RTSP / RTMP / HLS / WebRTC / SRT clients against a running Core whose "
              "admissions are judged in Coq against the authentication manager asked directly (admitted => the manager admits "
              "the action on the very path the client was attached to, that path is the one the request named, and no "
-             "configuration change slipped between authorization and attachment).",
+             "configuration change slipped between authorization and attachment). Requester identity: for every trusted-"
+             "proxy list, forwarding-header content and proxy chain, a call site that takes AccessRequest.IP from the source "
+             "its carrier demands (gin ClientIP on HTTP, the PROXY-protocol-aware connection address on RTSP / RTMP, the "
+             "peer elsewhere) hands the manager the address of the host the request is attributable to, so that what gets "
+             "attached was admitted for the ORIGINATOR's address (false for a HTTP site reading the TCP peer, for an engine "
+             "that trusts every peer, for a PROXY listener believing every peer: witnesses proved); the generated table "
+             "gives the source used at every authenticating call site and Coq checks each against its carrier; end to end, "
+             "clients behind honest proxies, forging clients and forging peers are driven against two Cores (with and "
+             "without trusted proxies) and every admission is judged against the manager asked about the originator.",
         note="PARTIAL. Trusted: Coq kernel+VM, the syntactic go/ast translator and its pinned exemptions (HLS muxer, HLS CDN "
              "secret, rpicamera secondary, static-source forwarder), the drivers, the oracles. The protocol front ends "
              "(how Name, credentials and IP are extracted from the wire) are sampled end to end, not proved; not covered: "
@@ -154,9 +185,15 @@ class C03(Prop):
         bad = [r["id"] + " = " + r["flow"] + " (" + r["note"] + ")" for r in nt["rows"]
                if not ok(r["flow"]) and r["id"] not in nt["exempt"]]
         two = [r for r in nt["rows"] if r["flow"].startswith("FTwoStep")]
+        ident = nt.get("ident") or []
+        fits = {("CHttp", "SClient"), ("CTcp", "SPeer"), ("CDirect", "SPeer")}   # mirror of Model.C03_Origin.ip_ok
+        badip = [r["id"] + " = " + r["carrier"] + " / " + r["src"] + " (" + r["note"] + ")" for r in ident
+                 if (r["carrier"], r["src"]) not in fits]
         return ["%d path-manager call sites (%d two-step flows, %d exempt), %d stream-level sites in the servers, "
                 "%d unclassified%s" % (nt["sites"], len(two), len(nt["exempt"]), nt["stream_sites"],
-                                       len(nt["unclassified"]), ("; NOT a well-formed flow: " + "; ".join(bad)) if bad else "")] + \
+                                       len(nt["unclassified"]), ("; NOT a well-formed flow: " + "; ".join(bad)) if bad else ""),
+                "%d authenticating call sites with the expression that supplies AccessRequest.IP%s"
+                % (len(ident), ("; source does NOT fit the carrier: " + "; ".join(badip)) if badip else "")] + \
             ["unclassified: " + u for u in nt["unclassified"]]
 
 
